@@ -1,5 +1,8 @@
 """C21 -- reader source positions delimit each form's text: the region reads back to an
 equal model, children lie within their parent, children are in source order."""
+import json
+import os
+
 from lib import vlib
 from props import reader_common as rc
 from translator import reader_tables
@@ -12,7 +15,8 @@ META = {
     "level_text": "Theorems (coq/Props/C21.v), for every text and every oracle record with fill_pos = At, no size bound: "
                   "C21_child_within_parent_and_order (every recorded region lies in the source, every child region within its "
                   "parent's, the items of every sequence strictly in source order -- except the annotate sugar, proved to be the "
-                  "only exception, and f-string parts, about which nothing is claimed), C21_positions_invariant (all reader "
+                  "only exception -- and the parts of every f-string / children of every replacement field in source order in "
+                  "the weak sense: starts and ends never go backwards), C21_positions_invariant (all reader "
                   "modes), C21_getc_invariant and C21_linecol_monotone (Reader.getc's line/column rule, constants regenerated), "
                   "C21_region_locality_partial (a form's positioned model depends only on its own text).  C21_full (the recorded "
                   "region reads back to an equal model) is stated, not proved; it is evaluated on every node of every generated "
@@ -42,10 +46,9 @@ def matcher_synth(rec, params):
 
 
 def matcher_fpart(rec, params):
-    """literal parts and replacement fields of an f-string have no syntax of their own (and every literal part starts at
-    the opening quote: read_fcomponents_until takes `start` once, before its loop)"""
+    """literal parts and replacement fields of an f-string have no syntax of their own: their regions cannot read back"""
     i = rec["input"]
-    return rec["key"] in ("region-reread", "children-out-of-order") and bool(i.get("fstring_part"))
+    return rec["key"] == "region-reread" and bool(i.get("fstring_part"))
 
 
 def matcher_annotate(rec, params):
@@ -95,9 +98,18 @@ def run(chk):
         return "PYTHONPATH=%s python -c 'import hy; m = list(hy.read_many(%r)); ...start_line/start_column/end_line/end_column'" % (vlib.REPO, t)
 
     n_prog = 30000 if thorough else 4000
-    for i in range(n_prog):
-        p = gen.program()
-        text, _r = rc.render(p)
+    # corpus first: reproducers of repaired defects (known_findings.json: fixed entries)
+    corpus = []
+    cdir = os.path.join(vlib.VERIF, "corpus", "C21")
+    for fn in sorted(os.listdir(cdir)) if os.path.isdir(cdir) else []:
+        corpus += json.load(open(os.path.join(cdir, fn), encoding="utf-8"))
+    for i in range(-len(corpus), n_prog):
+        if i < 0:
+            text = corpus[i + len(corpus)]
+            chk.count("corpus")
+        else:
+            p = gen.program()
+            text, _r = rc.render(p)
         ires = impl.read_many(text)
         if ires[0] != "Ok":
             chk.count("generator-invalid:" + ires[0])
